@@ -10,9 +10,9 @@ from checks import _batchdb as B
 
 LEVEL = "model_checking"
 MANIFEST = {
-    "technique": "TLA+ spec BatchDB checked exhaustively by TLC per program; labelled state-graph replay (B1) on the real stored procedures/triggers (MiniMySQL interpreter) and real front-end Python with exact state comparison",
+    "technique": "TLA+ spec BatchDB checked exhaustively by TLC per program; labelled state-graph replay (B1) on the real stored procedures/triggers (MiniMySQL interpreter) and real front-end Python with exact state comparison; graph replay by a rewinding traversal (every edge class, then every edge); overlapping-transactions stage: a second request runs inside the first at every statement boundary under a two-transaction isolation model of MiniMySQL and the result must be that of a serial order in the TLC graph",
     "text": "Every interleaving of update creation, group/job insertion, commit, cancellation, scheduling, worker reports, canceller loops, deactivation and cleaners for small programs is explored on the specification, where the user-level and group-level counters are shown equal to the recomputation from job states; the real triggers and procedures are shown to take exactly the specified transitions on that graph.",
-    "note": "Trusts TLC; MiniMySQL's rendering of MySQL semantics for the subset used (unit-tested, unknown constructs abort with exit 2); atomic serialisable transactions; one batch/user/instance collection with shard tokens summed out; bounded programs (<=4 jobs, <=3 groups, <=2 updates, <=2 attempts, <=2 instances). Recorded findings are excluded from the main run by scenario guards and reproduced separately.",
+    "note": "Trusts TLC; MiniMySQL's rendering of MySQL semantics for the subset used (unit-tested, unknown constructs abort with exit 2); atomic serialisable transactions; one batch/user/instance collection with shard tokens summed out; bounded programs (<=4 jobs, <=3 groups, <=2 updates, <=2 attempts, <=2 instances). Recorded findings are excluded from the main run by scenario guards and reproduced separately. The overlapping-transactions stage trusts the isolation model of vlib/minimysql/isolation.py (consistent reads, predicate locks approximating InnoDB next-key locks, lock waits; approximations err towards waiting).",
     "design_ref": "DESIGN.md section 5, c01",
 }
 
